@@ -11,6 +11,14 @@ pass 2 (memory)  only if pass 1 stayed within its budget: tracemalloc peak of th
                  trace: the two instruments multiply each other's overhead).  A CPU-time interval timer checks the traced size
                  every 50 ms of CPU time and aborts the call once it is above the budget - this only shortens a run whose peak is
                  above the budget anyway, so the verdict does not depend on when the timer fires.
+volume (pass 1)  C-level work on the input that no LINE event sees (data[:pos] copies, data.count / find / split / decode scans, a stream
+                 that is read again and again): the caller hands the library a TracedStream (an io.BytesIO whose read* / getvalue
+                 results are TracedBytes).  Counted, exactly and deterministically: every byte the stream delivers, every byte a
+                 slice of a delivered buffer copies, every byte a scanning / copying bytes method of a delivered buffer goes through
+                 (find / index: up to and including the hit).  What C code does through the buffer protocol (re, struct, zlib,
+                 BytesIO(data)) is not seen, so the count is a lower bound of the bytes moved.  Budget: 4 MiB + 64 * size; the call
+                 is aborted at 8 x the budget.  Only pass 1 gets the traced stream (the memory pass keeps the
+                 plain BytesIO, so its peak is that of the library alone).
 both passes      RAISE events: a MemoryError raised anywhere during the call (RLIMIT_AS of the worker = 3 GiB) is recorded even if
                  the library swallows it.  CPU time (ITIMER_PROF, never wall time) is limited to 60 s in pass 1 and 300 s under
                  tracemalloc; this is the back-stop for amplification in C code or in modules that are not counted.  The pool's
@@ -19,6 +27,7 @@ both passes      RAISE events: a MemoryError raised anywhere during the call (RL
 from __future__ import annotations
 
 import gc
+import io
 import os
 import signal
 import sys
@@ -31,6 +40,9 @@ STEP = 200                      # granularity of the slow path of the LINE callb
 MIB = 1 << 20
 MEM_BASE, MEM_PER_BYTE = 32 * MIB, 64
 EV_BASE, EV_PER_BYTE = 2_000_000, 2000
+VOL_BASE, VOL_PER_BYTE = 4 * MIB, 64
+VOL_ABORT_FACTOR = 8            # the call runs on to 8 x the volume budget, so that the per-byte figure of an over-budget case still says
+                                # something about growth (a counter stopped AT a budget of the form a + b * size shows b per byte, always)
 CPU_LIMIT = 60.0                # pass 1
 CPU_LIMIT_TRACED = 300.0        # pass 2 (tracemalloc slows allocation-heavy code down by an order of magnitude)
 TICK = 0.05
@@ -59,6 +71,9 @@ class _S:
     codes = []                  # library code objects discovered so far (LINE is switched on for them during pass 1 only)
     ticks = 0
     max_ticks = 0
+    volume = 0                  # bytes of the input delivered / copied / scanned through TracedStream and TracedBytes (pass 1)
+    vol_abort = 1 << 62         # the call is stopped at VOL_ABORT_FACTOR x the budget
+    vol_next = 0
 
 
 _b = bytearray(1)
@@ -85,6 +100,157 @@ def lib_dirs():
 
 def budgets(size: int):
     return EV_BASE + EV_PER_BYTE * size, MEM_BASE + MEM_PER_BYTE * size
+
+
+def vol_budget(size: int):
+    return VOL_BASE + VOL_PER_BYTE * size
+
+
+# ------------------------------------------------------------------------------------------------ traced input
+def _vol(n):
+    if not _S.active or _S.mode != "events":
+        return
+    _S.volume += n
+    if _S.abort is None:
+        if _S.volume > _S.vol_abort:
+            _S.abort = "volume"
+            _S.vol_next = _S.volume + (_S.vol_abort >> 2)
+            raise BudgetExceeded("volume")
+    elif _S.abort == "volume" and _S.volume >= _S.vol_next:
+        _S.vol_next = _S.volume + (_S.vol_abort >> 2)
+        raise BudgetExceeded("volume")
+
+
+def _span(length, a):
+    """number of bytes in [start:end] of a buffer of `length` bytes (a = the optional (start, end) arguments of a bytes method)"""
+    start, stop, _ = slice(a[0] if len(a) > 0 else None, a[1] if len(a) > 1 else None).indices(length)
+    return max(stop - start, 0), start, stop
+
+
+def _sublen(sub):
+    return 1 if isinstance(sub, int) else len(sub)
+
+
+class TracedBytes(bytes):
+    """bytes delivered by a TracedStream: slices and the scanning / copying methods report how many bytes they go through.  The
+    results are plain bytes (only first-hand work on the input is counted)."""
+    __slots__ = ()
+
+    def __getitem__(self, i):
+        r = bytes.__getitem__(self, i)
+        if type(i) is slice:
+            _vol(len(r))
+        return r
+
+    def __bytes__(self):
+        _vol(len(self))
+        return bytes.__getitem__(self, slice(None))
+
+    def __add__(self, other):
+        _vol(len(self))
+        return bytes.__add__(self, other)
+
+    def __contains__(self, x):
+        _vol(len(self))
+        return bytes.__contains__(self, x)
+
+    def count(self, sub, *a):
+        _vol(_span(len(self), a)[0])
+        return bytes.count(self, sub, *a)
+
+    def find(self, sub, *a):
+        r = bytes.find(self, sub, *a)
+        n, start, _stop = _span(len(self), a)
+        _vol(n if r < 0 else min(n, r - start + _sublen(sub)))
+        return r
+
+    def rfind(self, sub, *a):
+        r = bytes.rfind(self, sub, *a)
+        n, _start, stop = _span(len(self), a)
+        _vol(n if r < 0 else min(n, stop - r))
+        return r
+
+    def index(self, sub, *a):
+        n, start, _stop = _span(len(self), a)
+        try:
+            r = bytes.index(self, sub, *a)
+        except ValueError:
+            _vol(n)
+            raise
+        _vol(min(n, r - start + _sublen(sub)))
+        return r
+
+    def rindex(self, sub, *a):
+        n, _start, stop = _span(len(self), a)
+        try:
+            r = bytes.rindex(self, sub, *a)
+        except ValueError:
+            _vol(n)
+            raise
+        _vol(min(n, stop - r))
+        return r
+
+
+def _whole(name):
+    base = getattr(bytes, name)
+
+    def method(self, *a, **k):
+        _vol(len(self))
+        return base(self, *a, **k)
+    method.__name__ = name
+    return method
+
+
+for _name in ("decode", "split", "rsplit", "splitlines", "partition", "rpartition", "replace", "strip", "lstrip", "rstrip", "lower",
+              "upper", "translate", "hex", "expandtabs", "ljust", "rjust", "center", "zfill", "title", "swapcase", "capitalize"):
+    setattr(TracedBytes, _name, _whole(_name))
+
+
+class TracedStream(io.BytesIO):
+    def read(self, *a):
+        r = io.BytesIO.read(self, *a)
+        _vol(len(r))
+        return TracedBytes(r)
+
+    def read1(self, *a):
+        r = io.BytesIO.read1(self, *a)
+        _vol(len(r))
+        return TracedBytes(r)
+
+    def readline(self, *a):
+        r = io.BytesIO.readline(self, *a)
+        _vol(len(r))
+        return TracedBytes(r)
+
+    def readlines(self, *a):
+        r = io.BytesIO.readlines(self, *a)
+        _vol(sum(len(x) for x in r))
+        return r
+
+    def __next__(self):
+        r = io.BytesIO.__next__(self)
+        _vol(len(r))
+        return r
+
+    def readinto(self, b):
+        n = io.BytesIO.readinto(self, b)
+        _vol(n or 0)
+        return n
+
+    def getvalue(self):
+        r = io.BytesIO.getvalue(self)
+        _vol(len(r))
+        return TracedBytes(r)
+
+
+def traced_stream(data: bytes):
+    """-> the stream to hand to the library in pass 1"""
+    return TracedStream(data)
+
+
+def stream_for(data: bytes):
+    """the input stream of the running pass: traced in pass 1 (events + volume), a plain BytesIO otherwise"""
+    return traced_stream(data) if (_S.active and _S.mode == "events") else io.BytesIO(data)
 
 
 def _slow():
@@ -168,6 +334,7 @@ def _pass(fn, mode, cpu_limit):
     old = signal.signal(signal.SIGPROF, _sigprof)
     if mode == "events":
         _S.events = 0
+        _S.volume = 0
         _b[0] = 0
         for c in _S.codes:
             mon.set_local_events(TOOL, c, mon.events.LINE)
@@ -211,18 +378,20 @@ def _pass(fn, mode, cpu_limit):
 
 def measure(fn, size: int, enforce: bool = True) -> dict:
     """Run fn() under the meter (twice, see the module docstring).  size = uncompressed input size in bytes (decides the budgets).
-    Returns events, peak (None if pass 2 was not run), abort (None | 'events' | 'memory' | 'cpu'), memerr, exc / msg / value of
+    Returns events, volume (bytes of the input moved in pass 1, if fn used stream_for), peak (None if pass 2 was not run), abort (None | 'events' | 'memory' | 'cpu'), memerr, exc / msg / value of
     pass 1 (type name of what fn raised | None), cpu (seconds of pass 1, informational)."""
     install()
     ev_budget, mem_budget = budgets(size)
     _S.ev_budget = ev_budget if enforce else 1 << 62
     _S.mem_budget = mem_budget if enforce else 1 << 62
+    _S.vol_abort = VOL_ABORT_FACTOR * vol_budget(size) if enforce else 1 << 62
     _S.memerr = False
     p1 = _pass(fn, "events", CPU_LIMIT)
     events = _S.events + _b[0]
     out = {"events": events, "peak": None, "abort": p1["abort"], "memerr": _S.memerr, "exc": p1["exc"], "msg": p1["msg"],
-           "value": p1["value"], "cpu": p1["cpu"], "ev_budget": ev_budget, "mem_budget": mem_budget, "size": size, "cpu2": None}
-    if p1["abort"] is None and not _S.memerr and events <= ev_budget:
+           "value": p1["value"], "cpu": p1["cpu"], "ev_budget": ev_budget, "mem_budget": mem_budget, "size": size, "cpu2": None,
+           "volume": _S.volume, "vol_budget": vol_budget(size)}
+    if p1["abort"] is None and not _S.memerr and events <= ev_budget and _S.volume <= vol_budget(size):
         p2 = _pass(fn, "memory", CPU_LIMIT_TRACED)
         out["peak"] = p2["peak"]
         out["cpu2"] = p2["cpu"]
@@ -243,6 +412,8 @@ def verdict(m: dict):
         out.append(f"CPU time limit of {CPU_LIMIT_TRACED:.0f} s crossed in the memory pass")
     if m["events"] > m["ev_budget"] or m["abort"] == "events":
         out.append(f"line events {m['events']} > budget {m['ev_budget']} (aborted at the budget)")
+    if m.get("volume", 0) > m.get("vol_budget", 1 << 62) or m["abort"] == "volume":
+        out.append(f"input bytes delivered / copied / scanned {m.get('volume')} > budget {m.get('vol_budget')}" + (" (aborted at %d x the budget)" % VOL_ABORT_FACTOR if m["abort"] == "volume" else ""))
     if (m["peak"] is not None and m["peak"] > m["mem_budget"]) or m["abort"] == "memory":
         out.append(f"peak additional memory {m['peak']} B > budget {m['mem_budget']} B")
     if m["memerr"]:
